@@ -63,9 +63,18 @@ class Fails:
     def __init__(self, ctx):
         self.ctx = ctx
         self.n = 0
+        self.groups = {}
 
     def __call__(self, sig, desc, replay):
         self.n += 1
+        # systematic classes (one signature per species): the first three species of a class are reported, the rest counted
+        if sig.startswith(('C19:near-miss:', 'C19:pickle:', 'C19:copy:')):
+            g = sig.rsplit(':', 1)[0]
+            seen = self.groups.setdefault(g, set())
+            if sig not in seen and len(seen) >= 3:
+                self.ctx.count('failing-inputs-not-listed:' + g)
+                return
+            seen.add(sig)
         if len(self.ctx.failing) + len(self.ctx.known_hits) < MAX_FAILS:
             self.ctx.fail(sig, desc, replay)
         else:
